@@ -1081,14 +1081,22 @@ Box<ITV>::relation_with(const Generator& g) const {
   // TODO: If the variables in the expression that have coefficient 0
   // have no effect on seq[i], this loop can be optimized using
   // Generator::expr_type::const_iterator.
-  for (dimension_type i = g_space_dim; i-- > 0; ) {
+  // Note: the coordinates of `g' on the dimensions from `g_space_dim'
+  // onwards are zero.
+  for (dimension_type i = space_dim; i-- > 0; ) {
     const ITV& seq_i = seq[i];
     if (seq_i.is_universe()) {
       continue;
     }
-    assign_r(g_coord.get_num(), g.coefficient(Variable(i)), ROUND_NOT_NEEDED);
-    assign_r(g_coord.get_den(), g_divisor, ROUND_NOT_NEEDED);
-    g_coord.canonicalize();
+    if (i < g_space_dim) {
+      assign_r(g_coord.get_num(), g.coefficient(Variable(i)),
+               ROUND_NOT_NEEDED);
+      assign_r(g_coord.get_den(), g_divisor, ROUND_NOT_NEEDED);
+      g_coord.canonicalize();
+    }
+    else {
+      g_coord = 0;
+    }
     // Check lower bound.
     if (!seq_i.lower_is_boundary_infinity()) {
       assign_r(bound, seq_i.lower(), ROUND_NOT_NEEDED);
